@@ -63,9 +63,7 @@ func TestVerifC16Restore(t *testing.T) {
 			if occ {
 				req.OptimisticConcurrencyControl = &client.NullableBool{Value: true}
 			}
-			ctx, cancel := context.WithTimeout(context.Background(), 10*time.Second)
-			_, err := s.api.CreateStream(ctx, req)
-			cancel()
+			err := vCreateStream(s, req)
 			if err != nil {
 				t.Fatalf("create stream: %v", err)
 			}
